@@ -63,6 +63,25 @@ CHECKS = {
     note="Trusted: TLC, BigInt/IEEE, NumPy bit views, transport of chunk summaries (re-linked by the spec). Leniencies L1-L7 in Samples.tla (subnormal bound moved either way, unique=False order waived on the default path, huge required only for size >= 10...). Products checked at all cells when <= 3000, else sampled cells + corners.",
     design="6/C19"),
 
+ "C10": dict(
+    category="model_checking",
+    technique="TLA+ spec EFT.tla (2Sum, Fast2Sum, Veltkamp splitter, Dekker product as exact relations over IEEE.tla, with transcriptions that compute each call's domain) with TLC: transcriptions model-checked on all operands/pairs of toy formats; TLC-enumerated operand shapes driven through every copy and option combination of the real functions; every result validated by Trace_EFT.tla",
+    text="s = RN(x+y) and s+t = x+y, xh+xl = x with both halves in ceil(p/2) bits, h = RN(xy) and h+l = xy are equalities of exact dyadics decided by TLC; 'no intermediate overflow' and 'error term representable' are computed by the spec from the logged inputs, never by the driver. U1: every operand / ordered pair of toy formats T4..T7 (all splitter configurations, wrong algorithms as witnesses). U2/U3: 3.6e4 TLC-enumerated shapes (exponent gap x mantissa pattern x magnitude class x signs) concretised in float16/32/64, the float16 splitter exhaustively, random pairs; 60 variants (fpa, apmath wrappers, utils, the copies inlined in algorithms.py through their traced graph; fast/scale/fix_overflow/C options, array and scalar protocols).",
+    note="Trusted: TLC, BigInt/IEEE (self-tested against NumPy). Leniencies: sign of a zero in a pair free; fix_overflow does not enlarge the judged domain; assume_fma cannot be observed under NumPy (only 'returns a pair'); float16 pairs sampled, not exhaustive (2^32 pairs is out of TLC's reach in the time budget).",
+    design="6/C10"),
+ "C11": dict(
+    category="model_checking",
+    technique="TLA+ spec Compound.tla (next, is_power_of_two, 3Sum, 4Sum, mul_add, dot2, 32 FMA variants as exact relations over IEEE.tla) with TLC: transcriptions model-checked on all operand tuples of toy formats; TLC-enumerated operand shapes driven through the real code in float16/32/64; calls validated by Trace_Compound.tla",
+    text="Each documented bound is a clause over exact dyadics and ordinals (|Ord(result) - Ord(RN(exact))| <= k; s+e+t = x+y+z exactly; next = NextUp/NextDown; is_power_of_two iff the significand is a power of two) decided by TLC, domains computed by the spec. U1: all triples/quadruples of T3 (T4 thorough), unary over T6, with coverage showing no guard is vacuous. U2/U3: shapes (mantissa pattern x magnitude class x relation of addend to product: cancellation, ties, near ties, gaps, subnormal results, top of range) in three formats through both copies (apmath.py, apmath_algorithms.py) and all variants a7/a8/a9/apmath x fix_overflow x possibly_zero_z; next and is_power_of_two on every float16.",
+    note="Trusted: TLC, BigInt/IEEE. Known findings (not repaired: documented fallback design): fma with fix_overflow=True loses the low product word / returns inf near the top of the range (8 classes).",
+    design="6/C11"),
+ "C12": dict(
+    category="model_checking",
+    technique="TLA+ spec Expansion.tla (exact value of a list, non-overlap, renormalisation/sum/product clauses over IEEE.tla) with TLC: transcriptions of VecSum/VecSumErrBranch/nztopk model-checked on all short lists of a toy format; TLC-enumerated list shapes driven through eager, functional and traced variants of apmath; calls validated by Trace_Expansion.tla",
+    text="Sum(renormalize(l)) = Sum(l) exactly, the result is decreasing and pairwise non-overlapping after <= 2 passes, add/subtract exact when not truncated, multiply/square within one ulp of the leading term: all decided by TLC on exact dyadics. U1: all lists of <= 3 patterns of a toy format through the transcriptions (interior zeros, equal magnitudes, cancellation present exhaustively). U2/U3: list shapes (length 1..6, relation of adjacent items, zero positions, signs, order, cancellation) in float16/32/64 through eager, functional (NumpyContext) and traced (graph printed for NumPy, what is emitted for JAX) variants x fast/safe x size limits.",
+    note="Trusted: TLC, BigInt/IEEE. Fast variants judged only inside Fast2Sum's precondition. Known findings (not repaired): safe renormalize of unordered lists can need a third pass; multiply/square of non-normal-form operands cut by a size limit miss the bound.",
+    design="6/C12"),
+
  "C09": dict(
     category="model_checking",
     technique="TLA+ spec FAPipeline.tla (generation requests against process-global state) model-checked by TLC; TLC-enumerated and simulated request histories executed in forked real interpreters under several PYTHONHASHSEED values; merged (request, text digest) logs validated by Trace_Pipeline.tla",
